@@ -245,7 +245,8 @@ where
         // Decode how many entries are in this dictionary, and attempt to allocate a map with the necessary capacity.
         let length = decoder.decode_varuint()?;
         let mut map = HashMap::new();
-        map.try_reserve(length)?;
+        // The announced length is untrusted; never reserve more entries than there are bytes left to decode them from.
+        map.try_reserve(core::cmp::min(length, decoder.remaining()))?;
 
         // Decode 'length'-many entries into the map.
         decode_dictionary_entries!(map, decoder, length);
